@@ -835,7 +835,7 @@ def run(ctx):
     # 2. corpus, grid, generated cases
     cases: List[Tuple[str, Dict[str, Any]]] = [("corpus", c["case"]) for c in vlib.corpus_cases(ID)]
     cases += [("grid", c) for c in grid_cases(ctx.tier)]
-    nrand = 3000 if ctx.tier == "quick" else 30000
+    nrand = 2000 if ctx.tier == "quick" else 30000
     cases += [("random", gen_case(ctx.rng)) for _ in range(nrand)]
     ev = evaluate(ctx, [c for _, c in cases])
     for (stream, _), e in zip(cases, ev):
